@@ -148,6 +148,56 @@ def patch_stmts(pat):
     return ("\n".join(lines) + "\n").encode()
 
 
+def patch_stmts_modes(pat):
+    """pat: list of (symbol, mode); mode: 'pair' (-s +S), 'del' (-s only), 'keep' (context), symbol '...' on a context line"""
+    lines = ["@@", "@@"]
+    for sym, mode in pat:
+        if sym == "...":
+            lines.append(" ...")
+        elif mode == "pair":
+            lines += ["-%s()" % sym, "+%s()" % sym.upper()]
+        elif mode == "del":
+            lines.append("-%s()" % sym)
+        else:
+            lines.append(" %s()" % sym)
+    return ("\n".join(lines) + "\n").encode()
+
+
+def ref_output_modes(pat, lst):
+    base = ["..."] + [sy for sy, _ in pat] + ["..."]
+    r = ref_match(base, lst)
+    if r is None:
+        return None
+    runs, _ = r
+    out, ri = list(runs[0]), 1
+    for sy, mode in pat:
+        if sy == "...":
+            out += runs[ri]; ri += 1
+        elif mode == "pair":
+            out.append(sy.upper())
+        elif mode == "keep":
+            out.append(sy)
+    return out + list(runs[ri])
+
+
+def mode_patterns(rng, n):
+    """statement patterns mixing replaced, deleted and kept statements with elisions in any position (also first or last on a side)"""
+    out, seen = [], set()
+    while len(out) < n:
+        k = rng.randint(2, 5)
+        pat = []
+        for _ in range(k):
+            sy = rng.choice(["a", "b", "c", "...", "..."])
+            if sy == "..." and pat and pat[-1][0] == "...":
+                sy = rng.choice(["a", "b"])
+            pat.append((sy, rng.choice(["pair", "del", "del", "keep"]) if sy != "..." else ""))
+        explicit = [p for p in pat if p[0] != "..."]
+        if len(explicit) < 2 or not any(m in ("pair", "del") for _, m in explicit) or tuple(pat) in seen:
+            continue
+        seen.add(tuple(pat)); out.append(pat)
+    return out
+
+
 def file_stmts(ls):
     fns = []
     for k, l in enumerate(ls):
@@ -218,6 +268,9 @@ def main():
     for pat in (spats if thorough else spats[::2]):
         pairs.append(("p.patch", patch_stmts(pat), "a.go", file_stmts(ls)))
         names.append("stmts:%s" % " ".join(pat)); meta.append(("stmts", pat, None, None))
+    for pat in mode_patterns(ck.rng, 300 if thorough else 70):
+        pairs.append(("p.patch", patch_stmts_modes(pat), "a.go", file_stmts(ls)))
+        names.append("stmts-modes:%s" % " ".join(sy + (":" + m if m else "") for sy, m in pat)); meta.append(("stmts-modes", pat, None, None))
     # for-headers
     for_patch = b"@@\n@@\n for ... {\n-  a()\n+  A()\n   ...\n }\n"
     for_file = b"package p\n\nfunc h() {\n\tfor i := 0; i < n; i++ {\n\t\ta()\n\t\tb()\n\t}\n\tfor k, v := range m {\n\t\ta()\n\t}\n\tfor {\n\t\ta()\n\t}\n\tfor cond() {\n\t\tb()\n\t\ta()\n\t}\n\tfor range ch {\n\t\ta()\n\t\tc()\n\t}\n}\n"
@@ -269,6 +322,20 @@ def main():
                         fc = "nested-list-first-solution-only" if (sols and norm(g) == norm(orig) and "..." in inner and any(v in inner and v in outer for v in VARS)) else None
                         ck.violation("nested pattern f(g(%s), %s) against %s: expected %s, gopatch produced %s" % (" ".join(inner), " ".join(outer), orig, want, g),
                                      {"patch": pair[1].decode(), "target": orig, "expected": want, "got": g, "kind": kind}, finding_class=fc)
+        if kind == "stmts-modes" and not o["skipped"]:
+            ls = base_lists
+            out = (unb64(r["out"]) if r.get("out") else pair[3]).decode("utf-8", "replace")
+            blocks = re.findall(r"func h\d+\(\) \{\n\tif ok \{\n((?:\t\t.*\n|\n)*)\t\}\n\}", out)
+            if len(blocks) == len(ls):
+                for l, bl in zip(ls, blocks):
+                    npairs += 1
+                    got = [s_.strip()[:-2] for s_ in bl.split("\n") if s_.strip()]
+                    exp = ref_output_modes(pat, l)
+                    want = exp if exp is not None else l
+                    if got != want:
+                        ck.violation("statement pattern [%s] against block [%s]: expected %s, gopatch produced %s"
+                                     % (" ".join(sy + (":" + m if m else "") for sy, m in pat), " ".join(l), want, got),
+                                     {"patch": pair[1].decode(), "block": l, "expected": want, "got": got})
         if kind == "stmts" and not o["skipped"]:
             ls = base_lists
             out = (unb64(r["out"]) if r.get("out") else pair[3]).decode("utf-8", "replace")
